@@ -87,6 +87,9 @@ def topologies():
         # a cycle closed by a weak and a time-shifted connection: one sub-step per time step, over several time steps
         mk('loop_ws', [['A', 'B']], {'A': 'ev', 'B': 'ev'}, [('A', 'B', {'weak': True}), ('B', 'A', {'k': 1})], init={'A': 0}, tags=('multi',)),
         mk('loop_sw', [['A', 'B']], {'A': 'ev', 'B': 'ev'}, [('A', 'B', {'k': 1}), ('B', 'A', {'weak': True})], init={'A': 0}, tags=('multi',)),
+        # the loop-closing weak connection plus a time-shifted trigger connection between the same pair
+        mk('loop2_ws', [['A', 'B']], {'A': 'ev', 'B': 'ev'}, [('A', 'B'), ('B', 'A', {'weak': True}), ('B', 'A', {'k': 1, 'i': 't2'})], init={'A': 0},
+           tags=('multi',)),
         mk('loop_ws3', [['A', 'B', 'C']], {'A': 'ev', 'B': 'ev', 'C': 'ev'}, [('A', 'B', {'weak': True}), ('B', 'C'), ('C', 'A', {'k': 1})], init={'A': 0},
            tags=('multi',)),
     ]
